@@ -69,7 +69,7 @@ def mmul(m1, m2):
         if v1 == v2:
             e = e1 + e2
             if v1 == S3 and e >= 2:
-                f *= 3 ** (e // 2)
+                f *= 3 ** int(e // 2)
                 e = e % 2
             if e:
                 out.append((v1, e))
@@ -137,33 +137,45 @@ def content(a):
 
 
 def mono_content(a):
-    """greatest monomial dividing every term (as dict var -> exp)"""
-    it = iter(a)
-    try:
-        first = next(it)
-    except StopIteration:
+    """greatest monomial dividing every term (dict var -> exp); exponents may be negative or
+    fractional (generalised monomials): the minimum exponent over all terms, 0 where absent"""
+    terms = list(a)
+    if not terms:
         return {}
-    common = dict(first)
-    for m in it:
-        if not common:
-            break
-        d = dict(m)
-        for v in list(common):
-            e = d.get(v, 0)
-            if e == 0:
-                del common[v]
-            elif e < common[v]:
-                common[v] = e
+    vars_ = set()
+    for m in terms:
+        for v, _ in m:
+            vars_.add(v)
+    common = {}
+    for v in vars_:
+        lo = None
+        for m in terms:
+            e = 0
+            for vv, ee in m:
+                if vv == v:
+                    e = ee
+                    break
+            lo = e if lo is None or e < lo else lo
+        if lo != 0:
+            common[v] = lo
     return common
 
 
 def mono_div(a, md):
-    """divide every term of a by the monomial given as dict var -> exp"""
+    """divide every term of a by the monomial given as dict var -> exp (exponents of md may
+    be negative / fractional: variables absent from a term then appear with -md[v])"""
     if not md:
         return a
     r = {}
     for m, c in a.items():
-        r[tuple((v, e - md.get(v, 0)) for v, e in m if e - md.get(v, 0) > 0)] = c
+        d = dict(m)
+        for v, e in md.items():
+            ne = d.get(v, 0) - e
+            if ne != 0:
+                d[v] = ne
+            else:
+                d.pop(v, None)
+        r[tuple(sorted(d.items()))] = c
     return r
 
 
@@ -292,7 +304,12 @@ def finv(y):
     f = {}
     if q is not None:
         f[_pkey(q)] = (q, 1)
-    return _clean(Frac(n, c, dict(mc), f))
+    # generalised monomials: only positive exponents stay in the denominator monomial
+    pos = {v: e for v, e in mc.items() if e > 0}
+    neg = {v: -e for v, e in mc.items() if e < 0}
+    if neg:
+        n = pmul(n, _mono_poly(neg))
+    return _clean(Frac(n, c, pos, f))
 
 
 def fdiv(x, y):
@@ -375,6 +392,6 @@ def pstr(p, names, limit=12):
         if i >= limit:
             out.append(f'… ({len(p)} terms)')
             break
-        mon = '*'.join(f'{names.get(v, "x%d" % v)}' + (f'^{e}' if e > 1 else '') for v, e in m)
+        mon = '*'.join(f'{names.get(v, "x%d" % v)}' + (f'^({e})' if e != 1 else '') for v, e in m)
         out.append(f'{c}' + (f'*{mon}' if mon else ''))
     return ' + '.join(out)
